@@ -43,11 +43,13 @@ def load_prop(pid):
 
 
 def load_findings(pid):
-    path = os.path.join(FINDINGS, pid + ".json")
-    if not os.path.exists(path):
-        return []
-    with open(path) as f:
-        return json.load(f)
+    """findings/<pid>.json and findings/<pid>_*.json (committed; never written at run time)"""
+    out = []
+    for path in sorted(glob.glob(os.path.join(FINDINGS, pid + ".json")) +
+                       glob.glob(os.path.join(FINDINGS, pid + "_*.json"))):
+        with open(path) as f:
+            out += json.load(f)
+    return out
 
 
 def write_replay(pid, record):
@@ -99,7 +101,15 @@ def run_property(pid, tier):
         fails, changed = coqrun.regenerate(mod.GENERATORS)
         for f in fails:
             broken.append({"kind": "translator", "detail": f["error"]})
-        proof = coqrun.prove(mod.PROP_FILE)
+        prop_files = getattr(mod, "PROP_FILES", None) or [mod.PROP_FILE]
+        proof = {"ok": True, "theorems": [], "printed": [], "assumptions": {}, "errors": [], "output": ""}
+        for pf in prop_files:
+            pr = coqrun.prove(pf)
+            proof["ok"] = proof["ok"] and pr["ok"]
+            proof["theorems"] += pr["theorems"]
+            proof["printed"] += pr["printed"]
+            proof["assumptions"].update(pr["assumptions"])
+            proof["errors"] += pr["errors"]
         if not proof["ok"]:
             for e in proof["errors"]:
                 broken.append({"kind": "proof", "detail": "%s line %s, statement %s: %s" % (
@@ -146,7 +156,13 @@ def run_property(pid, tier):
                 known_hits[fid] = known_hits.get(fid, 0) + 1
                 rep["known"] += 1
             else:
-                failing.append({"suite": s.name, "case": c.desc, "index": i,
+                d = c.desc
+                if hasattr(mod, "shrink") and len(failing) < 3:
+                    try:
+                        d = mod.shrink(s.name, c.desc) or c.desc
+                    except Exception:
+                        d = c.desc
+                failing.append({"suite": s.name, "case": d, "index": i,
                                 "how": "property oracle (Coq spec side) rejects what the implementation did"})
         for i in r["disagree"]:
             c = s.cases[i]
@@ -195,6 +211,15 @@ def run_property(pid, tier):
                 failing.append({"suite": "fixed-finding-witness", "case": f.get("witness"),
                                 "how": "the witness of fixed finding %s fails again" % f["id"]})
 
+    # 4b. thorough: independent re-check of the property .vo files with coqchk
+    coqchk_report = None
+    if tier == "thorough" and proof["ok"] and not os.environ.get("VERIF_NO_COQCHK"):
+        rcc, outc = common.run(["timeout", "1500", "coqchk", "-silent", "-o", "-R", ".", "PM"] +
+                               ["PM.Props.%s" % f for f in prop_files], cwd=common.COQ, timeout=1600)
+        coqchk_report = {"rc": rcc, "tail": outc[-3000:]}
+        if rcc != 0:
+            broken.append({"kind": "coqchk", "detail": outc[-1500:]})
+
     # 5. decide
     rc = 0
     replay_path = None
@@ -211,7 +236,7 @@ def run_property(pid, tier):
 
     # 6. evidence
     ass_set = sorted(set(a for a in proof["assumptions"].values() if not a.startswith("Closed under")))
-    discharged = len([n for n in proof["printed"] if n in proof["assumptions"]]) if proof["ok"] else 0
+    discharged = len([n for n in proof["printed"] if n in proof["assumptions"]])
     obligations = len(proof["printed"])
     trusted = list(getattr(mod, "TRUSTED", [])) + [
         "Coq 8.16.1 kernel (coqc, full .vo build, vm_compute; no native_compute, no -type-in-type)",
@@ -224,7 +249,7 @@ def run_property(pid, tier):
         "property_id": pid, "tier": tier, "seed": seed, "level": "proof",
         "coverage": {
             "obligations": max(obligations, 1), "discharged": discharged,
-            "checker_cmd": "make -C /verif/coq Props/%s.vo  (coqc 8.16.1, after regenerating Generated/*.v from /repo)" % mod.PROP_FILE,
+            "checker_cmd": "make -C /verif/coq %s  (coqc 8.16.1, after regenerating Generated/*.v from /repo)" % " ".join("Props/%s.vo" % f for f in prop_files),
             "trusted_base": trusted,
             "theorems": [{"name": n, "assumptions": proof["assumptions"].get(n, "NOT CHECKED")} for n in proof["printed"]],
             "generated_files_differing_from_reference": coqrun.diff_from_ref(),
@@ -235,6 +260,7 @@ def run_property(pid, tier):
             "correspondence": suites_report,
             "known_finding_hits": known_hits,
             "broken_ties": broken[:10],
+            "coqchk": coqchk_report,
         },
         "assumptions": list(getattr(mod, "ASSUMPTIONS", [])),
         "wall_s": t.s(),
